@@ -301,40 +301,44 @@ def check(ctx):
     upd = method(repo, mc, "update")
     ru = evaluate(repo, upd)
     ucfg = CFG(upd.node)
+    def _sweeps(loop):
+        return any(isinstance(x, ast.Call) and isinstance(x.func, ast.Attribute)
+                   and x.func.attr == "update" and not x.args and not x.keywords
+                   for x in ast.walk(loop))
     loops = [s for s in ucfg.stmts if isinstance(s, ast.For)
-             and ast.unparse(s.iter) == "self._sorted_nodes"]
+             and (ast.unparse(s.iter) == "self._sorted_nodes" or _sweeps(s))]
+    sorted_t = ("a", SELF, "_sorted_nodes")
+    node_t = ("iter", sorted_t)
+    # the two modes of update() -- all nodes / the inputs of the named targets -- are read
+    # off the evaluated calls with `names` resolved, however the branches are arranged
+    # (two loops under an if, one loop with a guard, one loop over a filtered collection)
+    mode_all, mode_named = sweep_mode(ru, False), sweep_mode(ru, True)
     ctx.ob("C01.R6", upd, "every path through Model.update() runs a sweep over "
                           "self._sorted_nodes (no early exit that leaves nodes outdated)",
            len(loops) >= 1 and ucfg.must_pass_through(ENTRY, EXIT, loops)
-           and all(lp["iter"] == ("a", SELF, "_sorted_nodes") for lp in ru.loops
-                   if any(t[1][0] == "a" and t[1][2] == "update" for t, _, _ in lp["calls"])),
-           detail=f"{len(loops)} sweeps over _sorted_nodes, {len(ru.loops)} loops",
+           and len(mode_all) == 1 and len(mode_named) == 1
+           and mode_all[0][0] == sorted_t and mode_named[0][0] == sorted_t,
+           detail=f"{len(loops)} sweeps, collections "
+                  f"{[short(x[0]) for x in mode_all + mode_named]}",
            stmt="sweep on every path")
     ctx.paths += ucfg.paths_count(1000)
-    node_t = ("iter", ("a", SELF, "_sorted_nodes"))
-    ucalls = [(t, cond) for t, _, cond in ru.calls if t[1] == ("a", node_t, "update")]
-    full = [x for x in ucalls if (n("names"), False) in _atoms(x[1])
-            or (n("names"), False) in x[1]]
-    targ = [x for x in ucalls if x not in full]
-    ok_full = False
-    if len(full) == 1:
-        at_ = {(a, p) for a, p in _atoms(full[0][1]) if a[0] != "inloop" and a != n("names")}
-        ok_full = at_ == {(("a", node_t, "outdated"), True)}
+    outd_atom = (("a", node_t, "outdated"), True)
+    ok_full = len(mode_all) == 1 and mode_all[0][1] == {outd_atom}
     ctx.ob("C01.R6", upd, "full update: node.update() iff node.outdated, for every node in "
                           "topological order", ok_full,
-           detail=str([[pretty(a) + "=" + str(p) for a, p in _atoms(x[1])] for x in full]),
+           detail=str([[pretty(a)[:80] + "=" + str(p) for a, p in x[1]] for x in mode_all]),
            stmt="full sweep guard")
     ok_t = False
     inputs_term = None
-    if len(targ) == 1:
-        at_ = {(a, p) for a, p in _atoms(targ[0][1]) if a[0] != "inloop" and a != n("names")}
+    if len(mode_named) == 1:
+        at_ = mode_named[0][1]
         mem = [a for a, p in at_ if a[0] == "cmp" and a[1] == "in" and a[2] == node_t and p]
-        if len(mem) == 1 and (("a", node_t, "outdated"), True) in at_ and len(at_) == 2:
+        if len(mem) == 1 and outd_atom in at_ and len(at_) == 2:
             inputs_term = mem[0][3]
             ok_t = True
     ctx.ob("C01.R6", upd, "targeted update: node.update() iff node is a recursive input of "
                           "a target and node.outdated", ok_t,
-           detail=str([[pretty(a) + "=" + str(p) for a, p in _atoms(x[1])] for x in targ]),
+           detail=str([[pretty(a)[:80] + "=" + str(p) for a, p in x[1]] for x in mode_named]),
            stmt="targeted sweep guard")
     ok_u = False
     if inputs_term is not None:
@@ -515,6 +519,111 @@ def _walk_own(fnode):
         if isinstance(x, (ast.FunctionDef, ast.AsyncFunctionDef, ast.Lambda, ast.ClassDef)):
             continue
         stack.extend(ast.iter_child_nodes(x))
+
+
+def _nonnull(t) -> bool:
+    """Terms that are certainly not None: fresh containers, displays, comprehensions and
+    the result of set algebra on them."""
+    if t[0] in ("set", "list", "tuple", "dict", "comp", "fresh"):
+        return True
+    if t[0] == "call" and t[1][0] == "a" and t[1][2] in ("union", "intersection", "copy"):
+        return _nonnull(t[1][1])
+    if t[0] == "call" and t[1] in (n("set"), n("list"), n("tuple"), n("frozenset")):
+        return True
+    return False
+
+
+def _fold_none(t):
+    if not isinstance(t, tuple) or not t:
+        return t
+    t = tuple(_fold_none(x) if isinstance(x, tuple) else x for x in t)
+    if t[0] == "cmp" and t[1] == "is" and len(t) == 4 and c(None) in (t[2], t[3]):
+        o = t[2] if t[3] == c(None) else t[3]
+        if t[2] == t[3]:
+            return c(True)
+        if _nonnull(o):
+            return c(False)
+    return t
+
+
+def _specialise(t, facts, truth=False):
+    """Resolve joins whose condition is decided by `facts` (a fact is used where a truth
+    value is asked for, never where the value itself flows), then fold None tests."""
+    from .c13 import partial_eval
+
+    def val(t):
+        if not isinstance(t, tuple) or not t:
+            return t
+        if t[0] in ("phi", "ifexp") and len(t) == 4:
+            cnd = tv(t[1])
+            if cnd[0] == "c" and isinstance(cnd[1], bool):
+                return val(t[2] if cnd[1] else t[3])
+            return (t[0], cnd, val(t[2]), val(t[3]))
+        if t[0] == "bool" or (t[0] == "u" and t[1] == "not"):
+            return tv(t)
+        return tuple(val(x) if isinstance(x, tuple) else x for x in t)
+
+    def tv(t):
+        if t in facts:
+            return c(facts[t])
+        if t[0] == "u" and t[1] == "not":
+            return not_(tv(t[2]))
+        if t[0] == "bool":
+            return ("bool", t[1], tuple(tv(x) for x in t[2]))
+        return val(t)
+
+    return partial_eval(_fold_none(tv(t) if truth else val(t)), {})
+
+
+def sweep_mode(ru, with_names: bool):
+    """The node.update() calls of Model.update() in one of its two modes (`names` given or
+    not), as (iterated collection, residual guard atoms): joins on `names` are resolved,
+    None tests of the resolved values folded, and a sweep over a filtered generator of X is
+    a sweep over X under the filter."""
+    facts = {n("names"): with_names}
+    out = []
+    for t, _, cond in ru.calls:
+        if not (t[1][0] == "a" and t[1][2] == "update" and t[2] == () and t[3] == ()):
+            continue
+        recv = _specialise(t[1][1], facts)
+        if recv[0] != "iter":
+            continue
+        coll, extra, sub = recv[1], [], None
+        if (coll[0] == "comp" and len(coll[3]) == 1 and coll[2] == ("iter", coll[3][0][1])):
+            # (node for node in X if f(node)): elements of X that pass the filters
+            sub = (recv, coll[2])
+            extra = [(f_, True) for f_ in coll[3][0][2]]
+            coll = coll[3][0][1]
+        atoms, dead = set(), False
+        for a, pol in list(cond) + extra:
+            a = _specialise(a, facts, truth=True)
+            if sub is not None:
+                a = _replace(a, sub[0], sub[1])
+            for a_, p_ in _atoms(((a, pol),)):
+                if a_[0] == "bool":
+                    # a false conjunction / true disjunction with one undecided member
+                    rest = [x for x in a_[2] if x[0] != "c"]
+                    if len(rest) == 1 and all(
+                            x[1] == (a_[1] == "and") for x in a_[2] if x[0] == "c"):
+                        (a_, p_), = _atoms(((rest[0], p_),)) if len(
+                            _atoms(((rest[0], p_),))) == 1 else ((a_, p_),)
+                if a_[0] == "c" and isinstance(a_[1], bool):
+                    dead = dead or (a_[1] != p_)
+                    continue
+                if a_[0] == "inloop" or a_ == n("names"):
+                    continue
+                atoms.add((a_, p_))
+        if not dead:
+            out.append((coll, frozenset(atoms)))
+    return out
+
+
+def _replace(t, old, new):
+    if t == old:
+        return new
+    if not isinstance(t, tuple):
+        return t
+    return tuple(_replace(x, old, new) if isinstance(x, tuple) else x for x in t)
 
 
 def _atoms(cond):
